@@ -217,7 +217,9 @@ class Normalizer:
         if q is not None:
             cv = self._module_constant(q)
             return cv if cv is not None else q
-        # free variable of an enclosing function
+        # free variable of an enclosing function (named by the caller when a closure is read in its enclosing function's terms)
+        if nm in self.param_map:
+            return self.param_map[nm]
         return f"FREE:{nm}"
 
     def _module_constant(self, q: str) -> t.Optional[str]:
@@ -419,6 +421,23 @@ class Normalizer:
             inl = self._inline_simple_function(self.model.functions[fn], [X(a) for a in e.args], depth)
             if inl is not None:
                 return inl
+        # a closure defined once in this function, one `return <expr>` long: its body with the arguments substituted; free variables
+        # are read in the enclosing function's own terms (its parameters keep their names)
+        if fn.startswith('FUNC:') and isinstance(e.func, ast.Name) and not e.keywords and not any(isinstance(a, ast.Starred) for a in e.args) and depth < 6:
+            g = self.model.functions.get(f"{self.func.qualname}.{e.func.id}")
+            if g is not None and isinstance(g.node, ast.FunctionDef) and len(g.params) == len(e.args) and not g.decorators:
+                body = [s_ for s_ in g.node.body if not (isinstance(s_, ast.Expr) and isinstance(s_.value, ast.Constant))]
+                if len(body) == 1 and isinstance(body[0], ast.Return) and body[0].value is not None:
+                    from .cfg import cfg_of
+                    pm = dict(self.param_map)
+                    for p_ in self.func.params:
+                        pm.setdefault(p_, f'${p_}' if p_ not in ('self', 'cls') else p_)
+                    pm.update({p_: X(a) for p_, a in zip(g.params, e.args)})
+                    gcfg = cfg_of(self.model, g)
+                    sub = Normalizer(self.model, g, gcfg, param_map=pm, inline_unique_methods=self.inline_unique_methods, func_hook=self.func_hook)
+                    rn = [n_ for n_ in gcfg.live_nodes() if n_.kind == 'return' and n_.ast is not None]
+                    if len(rn) == 1:
+                        return sub.expr(body[0].value, rn[0], None, depth + 1)
         # unique one-expression helper methods (``field.has_default()``) are inlined
         if self.inline_unique_methods and isinstance(e.func, ast.Attribute) and not e.args and not e.keywords:
             inl = self._inline_unique(e.func.attr, e.func.value, node, bound, depth)
